@@ -240,7 +240,8 @@ theorem parseBody_fix (c : ClientCfg) (hx : c.isXML c.jsonCT = false) (j k : Nat
   clear hh
   unfold parseBody
   by_cases hp : payloadForbid c st.method = true
-  · simp [hp, hmi]
+  · have hfb : st.body.forbidden.forbidden = st.body.forbidden := by cases st.body <;> rfl
+    simp [hp, hmi, hfb]
   · simp only [hp, Bool.false_eq_true, ↓reduceIte, R, Variant.repaired, Bool.not_true, Bool.false_or, hk,
       Bool.and_false]
     generalize hform : (if (nonEmpty c.form && j == 0) = true then addAll st.form c.form else st.form) = form
